@@ -9,6 +9,7 @@ import math
 from .facts import ds, fmt, inline_calls, callee_name
 
 INF = float("inf")
+PROG = [None]
 STRATEGIES = ("Sqrt", "Rice", "Sturges", "FreedmanDiaconis")
 
 
@@ -65,22 +66,28 @@ def _rnd(g):
     return f
 
 
-def interval(tb, e, len_lo, depth=0):
-    """(lo, hi) of expression e, or None when outside the domain"""
+def interval(tb, e, len_lo, depth=0, env=None):
+    """(lo, hi) of expression e, or None when outside the domain.  env: inside a closure evaluated at its call – {"params": {k: interval},
+    "ups": [captured expressions], "ptb": the body the captures live in, "penv": that body's own env}"""
     e = ds(e)
     if depth > 40 or not isinstance(e, tuple):
         return None
     k = e[0]
+    if env is not None:
+        if k == "param" and e[1] in env["params"]:
+            return env["params"][e[1]]
+        if k == "upvar" and e[1] < len(env["ups"]):
+            return interval(env["ptb"], env["ups"][e[1]], len_lo, depth + 1, env.get("penv"))
     if k == "const":
         v = e[2]
         if isinstance(v, bool) or not isinstance(v, (int, float)):
             return None
         return (float(v), float(v))
     if k in ("ref", "deref"):
-        return interval(tb, e[1], len_lo, depth + 1)
+        return interval(tb, e[1], len_lo, depth + 1, env)
     if k == "cast":
         inner = e[2] if len(e) >= 3 and isinstance(e[2], tuple) else e[1]
-        iv = interval(tb, inner, len_lo, depth + 1)
+        iv = interval(tb, inner, len_lo, depth + 1, env)
         if iv is None:
             return None
         kind = e[1] if isinstance(e[1], str) else ""
@@ -99,7 +106,7 @@ def interval(tb, e, len_lo, depth=0):
             return iv
         return None
     if k == "binop":
-        a, b = interval(tb, e[2], len_lo, depth + 1), interval(tb, e[3], len_lo, depth + 1)
+        a, b = interval(tb, e[2], len_lo, depth + 1, env), interval(tb, e[3], len_lo, depth + 1, env)
         if a is None or b is None:
             return None
         op = e[1].replace("WithOverflow", "").replace("Unchecked", "")
@@ -120,14 +127,14 @@ def interval(tb, e, len_lo, depth=0):
         return None
     if k == "field" and len(e) >= 3 and str(e[2]) == "0":
         # (a + b) of a checked addition: the tuple's first component
-        return interval(tb, e[1], len_lo, depth + 1)
+        return interval(tb, e[1], len_lo, depth + 1, env)
     if k == "phi":
         out = None
         for d in e[3]:
             if d[0] in ("entry", "partial"):
                 return None
             try:
-                iv = interval(tb, tb.def_expr(e[1], d), len_lo, depth + 1)
+                iv = interval(tb, tb.def_expr(e[1], d), len_lo, depth + 1, env)
             except Exception:
                 return None
             if iv is None:
@@ -138,7 +145,7 @@ def interval(tb, e, len_lo, depth=0):
         nm, args = e[1], e[3]
         if _is_len_of_input(e):
             return (float(len_lo), INF)
-        A = lambda i: interval(tb, args[i], len_lo, depth + 1)
+        A = lambda i: interval(tb, args[i], len_lo, depth + 1, env)
         if nm in ("unwrap", "expect", "clone", "into", "from", "from_usize", "from_u64", "from_u32", "from_i64", "from_f64", "from_f32",
                   "to_f64", "to_usize", "unwrap_or_default") and args:
             iv = A(0)
@@ -174,7 +181,28 @@ def interval(tb, e, len_lo, depth=0):
             g = max if nm == "max" else min
             return (g(a[0], b[0]), g(a[1], b[1]))
         if nm in ("add", "sub", "mul", "div") and len(args) == 2:
-            return interval(tb, ("binop", nm.capitalize(), args[0], args[1]), len_lo, depth + 1)
+            return interval(tb, ("binop", nm.capitalize(), args[0], args[1]), len_lo, depth + 1, env)
+        if nm in ("call_once", "call", "call_mut") and len(args) == 2 and PROG[0] is not None:
+            # a closure applied to its arguments (`n_bins_for(a.len())`): the closure's returned expression over the arguments
+            f = ds(args[0])
+            for _ in range(3):
+                if isinstance(f, tuple) and f[0] in ("ref", "deref"):
+                    f = ds(f[1])
+            tup = ds(args[1])
+            if isinstance(f, tuple) and f[:2] == ("agg", "closure") and f[2] in PROG[0].bodies and isinstance(tup, tuple) and tup[0] == "agg":
+                cb = PROG[0].tracked(PROG[0].bodies[f[2]])
+                pv = {}
+                for i_, a_ in enumerate(tup[3]):
+                    iv_ = interval(tb, a_, len_lo, depth + 1, env)
+                    if iv_ is None:
+                        return None
+                    pv[2 + i_] = iv_
+                try:
+                    r_ = cb.return_expr()
+                except Exception:
+                    return None
+                return interval(cb, r_, len_lo, depth + 1, dict(params=pv, ups=list(f[3]), ptb=tb, penv=env))
+            return None
         if nm == "saturating_sub" and len(args) == 2:
             a, b = A(0), A(1)
             if a is None or b is None:
@@ -248,6 +276,7 @@ def nonempty_at(tb, bb):
 
 def rule_divisors(ctx, prog, rule="R33"):
     n = 0
+    PROG[0] = prog
     for sname in STRATEGIES:
         try:
             fa = prog.find("histogram::strategies::%s<T> as histogram::strategies::BinsBuildingStrategy>::from_array" % sname)
